@@ -38,7 +38,9 @@ type storeHistory struct {
 }
 
 var storeIDPool = []string{"A", "B", "a:b", "SFW-MAL-1", "ü/1", "B2"}
-var storeEntPool = []float64{0, 1.0 / 64, 0.5, 3, 3 + 1.0/64, 3.03125, 8}
+
+// 3.00001 / 3.00002 / 3.00004: different scores that share the four-decimal bucket of the entropy index key
+var storeEntPool = []float64{0, 1.0 / 64, 0.5, 3, 3 + 1.0/64, 3.03125, 8, 3.00001, 3.00002, 3.00004}
 
 func genStoreSig(r *Rng, h *storeHistory, hashes, fuzzies []string) detection.Signature {
 	var s detection.Signature
@@ -147,7 +149,13 @@ func genStoreHistory(r *Rng, maxOps int) *storeHistory {
 			}
 			sort.Strings(ids)
 			s1 := last[pick(r, ids)]
-			switch r.Intn(4) {
+			switch r.Intn(5) {
+			case 4:
+				// the score moves inside its index bucket (the key is printed with four decimals)
+				s1.EntropyScore = pick(r, []float64{3.00001, 3.00002, 3.00004})
+				if r.Bool() {
+					s1.EntropyScore += 1e-6
+				}
 			case 0, 1:
 				for _, t := range []float64{0, 0.125, 0.5, 1.5} {
 					if t != s1.EntropyTolerance && r.Chance(50) {
@@ -322,7 +330,11 @@ func readExport(path string) ([]detection.Signature, error) {
 // lookups runs all ten lookups on the real store; returns protocol lines, the real outputs in the
 // driver's canonical form, and (via c) oracle violations against the harness spec.
 func storeLookups(c *Ctx, ps *pebbledb.PebbleScanner, sp *specStore, h *storeHistory, r *Rng, hashPool []string, scratch string, viol func(lookup, detail string)) (lines, real []string, kinds []string) {
-	add := func(kind, l, out string) { lines = append(lines, l); real = append(real, out); kinds = append(kinds, kind) }
+	add := func(kind, l, out string) {
+		lines = append(lines, l)
+		real = append(real, out)
+		kinds = append(kinds, kind)
+	}
 	// get
 	for _, id := range storeIDPool {
 		got, err := ps.GetSignature(id)
